@@ -26,8 +26,10 @@ from .common import NCPU, PY, VERIF, Timer, child_env, scratch, seed, tier
 CONCRETE = {"a": "alpha", "b": "beta", "c": "gamma", "yy": "stale_one", "zz": "stale_two"}
 PROSE = {"alpha": "the first thing", "beta": "how many of them", "gamma": "where to put it", "kwargs": "forwarded on",
          "width": "the width", "depth": "the depth", "stale_one": "a key passed on", "stale_two": "another key passed on"}
-TYP = {"absent": None, "int": "int", "str": "str", "OptInt": "Optional[int]", "float": "float"}
-DEFVAL = {"int": 5, "str": "mnist", "OptInt": None, "absent": 5, "float": 0.5}
+TYP = {"absent": None, "int": "int", "str": "str", "OptInt": "Optional[int]", "float": "float", "bool": "bool"}
+# C12: defaults that compare equal across types (0 == 0.0 == False, 1 == 1.0 == True) must stay apart within one process
+VARIETY = {"int": (5, 0, 1), "float": (0.5, 0.0, 1.0), "bool": (True, False), "absent": (5, 0.0, True, 1)}
+DEFVAL = {"int": 5, "str": "mnist", "OptInt": None, "absent": 5, "float": 0.5, "bool": True}
 
 
 def def_token(v, present=True):
@@ -53,7 +55,7 @@ def typ_token(t):
     return {"int": "int", "str": "str", "Optional[int]": "OptInt", "float": "float", "Optional[dict]": "OptDict"}.get(n, "other:" + n)
 
 
-def decorate(core, rnd, variant):
+def decorate(core, rnd, variant, variety=False):
     """core: {"sig": [{n, def}], "doc": [names]} -> scenario dict."""
     names = [CONCRETE[s["n"]] for s in core["sig"]]
     has_def = [s["def"] == "d" for s in core["sig"]]
@@ -63,8 +65,10 @@ def decorate(core, rnd, variant):
         split = rnd.choice([3, 2, 1, 0])
     params = []
     for i, n in enumerate(names):
-        ann = rnd.choice(["absent", "int", "str", "OptInt"])
+        ann = rnd.choice(["absent", "int", "str", "OptInt"] + (["float", "bool"] if variety else []))
         params.append({"n": n, "pk": "pos" if i < split else "kwonly", "ann": ann, "def": (ann if has_def[i] else None)})
+        if variety and has_def[i] and ann in VARIETY:
+            params[-1]["val"] = rnd.choice(VARIETY[ann])
     kwargs = rnd.choice([None, None, "doc", "undoc"])
     doc = []
     for d in core["doc"]:
@@ -76,6 +80,8 @@ def decorate(core, rnd, variant):
         dt = rnd.choice(["absent", "same", "same", "other"])
         typ = "absent" if dt == "absent" or (dt == "same" and p["ann"] == "absent") else (p["ann"] if dt == "same" else "float")
         doc.append({"n": n, "typ": typ})
+        if variety and p["def"] is not None and rnd.random() < 0.6:
+            doc[-1]["says"] = repr(p.get("val", DEFVAL[p["def"]]))      # the prose announces the default as well
     if kwargs == "doc":
         doc.append({"n": "kwargs", "typ": "absent"})
     kind = variant["kind"]
@@ -102,7 +108,7 @@ def render_doc(sc, entries, summary="Do the thing.", indent="    ", key="param")
         return ("\n" + indent).join(lines).rstrip()
     if style == "rest":
         for e in entries:
-            lines.append(":%s %s: %s" % (key, e["n"], PROSE[e["n"]]))
+            lines.append(":%s %s: %s" % (key, e["n"], PROSE[e["n"]] + ((" Defaults to " + e["says"]) if e.get("says") else "")))
             if e.get("typ", "absent") != "absent":
                 lines.append(":type %s: ```%s```" % (e["n"], TYP[e["typ"]]))
             lines.append("")
@@ -110,13 +116,13 @@ def render_doc(sc, entries, summary="Do the thing.", indent="    ", key="param")
         lines += ["Parameters", "----------"]
         for e in entries:
             lines.append("%s : %s" % (e["n"], TYP[e["typ"]]) if e.get("typ", "absent") != "absent" else "%s :" % e["n"])
-            lines.append("    " + PROSE[e["n"]])
+            lines.append("    " + PROSE[e["n"]] + ((" Defaults to " + e["says"]) if e.get("says") else ""))
         lines.append("")
     else:
         lines.append("Args:")
         for e in entries:
-            lines.append(("  %s (%s): %s" % (e["n"], TYP[e["typ"]], PROSE[e["n"]])) if e.get("typ", "absent") != "absent"
-                         else "  %s: %s" % (e["n"], PROSE[e["n"]]))
+            pr = PROSE[e["n"]] + ((" Defaults to " + e["says"]) if e.get("says") else "")
+            lines.append(("  %s (%s): %s" % (e["n"], TYP[e["typ"]], pr)) if e.get("typ", "absent") != "absent" else "  %s: %s" % (e["n"], pr))
         lines.append("")
     if sc.get("tail"):
         # a section after the parameters (C12: whatever the parser does with it, it must do the same every time)
@@ -141,7 +147,7 @@ def render(sc):
             if p["ann"] != "absent":
                 s += ": " + TYP[p["ann"]]
             if p["def"] is not None:
-                s += (" = " if p["ann"] != "absent" else "=") + repr(DEFVAL[p["def"]])
+                s += (" = " if p["ann"] != "absent" else "=") + repr(p.get("val", DEFVAL[p["def"]]))
             parts.append(s)
         if sc["kwargs"]:
             parts.append("**kwargs")
@@ -287,7 +293,7 @@ def build(thorough, rnd, extras=False):
         is_ext = any(x in ("yy", "zz") for x in core["doc"])
         for v in (variants if (thorough and not is_ext) else rnd.sample(variants, 3)):
             for _ in range(reps):
-                sc = decorate(core, rnd, v)
+                sc = decorate(core, rnd, v, variety=extras)
                 sc["tail"] = bool(extras and rnd.random() < 0.3)
                 sc["src"] = render(sc)
                 sc["id"] = "m%d" % len(scs)
